@@ -742,45 +742,50 @@ Definition mk_rin (k : ikind) (r s : Z) : rin :=
 Definition redeem126 : list N := repeat 97 126.
 Definition out_of (n : nat) : txout := {| to_value := 1000; to_script := repeat 97 n |}.
 
+Lemma witness_of_bool der ops ins outs (P : tx -> N -> bool) :
+  match build_with der ins outs, estimate ops with Some T, VOk e => P T e | _, _ => false end = true ->
+  exists T e, build_with der ins outs = Some T /\ estimate ops = VOk e /\ P T e = true.
+Proof. destruct (build_with der ins outs); destruct (estimate ops); try discriminate; eauto. Qed.
+
 (* equality is reached: all four input kinds, all four output kinds, maximal signatures (also
    from a high S, which the serialiser normalises) *)
+Definition tight_ops : list op :=
+  [OPkhIn 1 true; OPkhIn 1 false; OShIn 1 126 true; OShIn 1 126 false;
+   OPkhOut 1 true; OPkhOut 1 false; OShOut 1 true; OShOut 1 false].
+Definition tight_ins : list rin :=
+  [mk_rin (KSh false redeem126) r33 s_high32; mk_rin (KPkh true) r33 s_low32;
+   mk_rin (KSh true redeem126) r33 s_low32; mk_rin (KPkh false) r33 s_high32].
+Definition tight_outs : list txout := [out_of 22; out_of 25; out_of 34; out_of 23].
 Example estimate_tight :
-  let ops := [OPkhIn 1 true; OPkhIn 1 false; OShIn 1 126 true; OShIn 1 126 false;
-              OPkhOut 1 true; OPkhOut 1 false; OShOut 1 true; OShOut 1 false] in
-  let ins := [mk_rin (KSh false redeem126) r33 s_high32; mk_rin (KPkh true) r33 s_low32;
-              mk_rin (KSh true redeem126) r33 s_low32; mk_rin (KPkh false) r33 s_high32] in
-  let outs := [out_of 22; out_of 25; out_of 34; out_of 23] in
-  exists T e, build ins outs = Some T /\ estimate ops = VOk e /\ vsize T = e
-              /\ map (fun i => len (sig_bytes_with der_serialize i)) ins = [72; 72; 72; 72].
-Proof. cbv zeta. eexists. eexists. repeat split; vm_compute; reflexivity. Qed.
+  exists T e, build tight_ins tight_outs = Some T /\ estimate tight_ops = VOk e /\
+    ((vsize T =? e) && forallb (fun i => len (sig_bytes_with der_serialize i) =? 72) tight_ins) = true.
+Proof. apply (witness_of_bool der_serialize). vm_compute. reflexivity. Qed.
 
 (* why the low-S step matters: with the serialiser that skips it ([der_raw]) a 73-byte
    signature appears and the real transaction of exactly the estimated shape is larger *)
+Definition high_ins : list rin := [mk_rin (KPkh false) r33 s_high].
 Example high_s_would_undershoot :
-  let ops := [OPkhIn 1 false; OPkhOut 1 true] in
-  let ins := [mk_rin (KPkh false) r33 s_high] in
-  let outs := [out_of 22] in
-  exists T e, build_with der_raw ins outs = Some T /\ estimate ops = VOk e /\ e < vsize T
-              /\ map (fun i => len (sig_bytes_with der_raw i)) ins = [73]
-              /\ in_covered (SPkh false) (KPkh false) = true /\ out_covered (TPkh true) (out_of 22) = true.
-Proof. cbv zeta. eexists. eexists. repeat split; vm_compute; reflexivity. Qed.
+  exists T e, build_with der_raw high_ins [out_of 22] = Some T /\ estimate [OPkhIn 1 false; OPkhOut 1 true] = VOk e /\
+    ((e <? vsize T) && forallb (fun i => len (sig_bytes_with der_raw i) =? 73) high_ins
+     && in_covered (SPkh false) (KPkh false) && out_covered (TPkh true) (out_of 22)) = true.
+Proof. apply (witness_of_bool der_raw). vm_compute. reflexivity. Qed.
 
 (* why the guard of [in_covered] on one-byte redeem scripts: the placeholder 0x00 is pushed as
    OP_0 (1 byte), the real script 0x51 as 0x01 0x51 (2 bytes) *)
 Example one_byte_redeem_undershoots :
-  let ops := [OShIn 1 1 false; OPkhOut 1 true] in
-  let ins := [mk_rin (KSh false [81]) r33 s_low32] in
-  let outs := [out_of 22] in
-  exists T e, build ins outs = Some T /\ estimate ops = VOk e /\ vsize T = e + 1.
-Proof. cbv zeta. eexists. eexists. repeat split; vm_compute; reflexivity. Qed.
+  exists T e, build [mk_rin (KSh false [81]) r33 s_low32] [out_of 22] = Some T /\
+              estimate [OShIn 1 1 false; OPkhOut 1 true] = VOk e /\ (vsize T =? e + 1) = true.
+Proof. apply (witness_of_bool der_serialize). vm_compute. reflexivity. Qed.
 
 (* callers: a deposit sweep of P2WSH deposits is covered by what estimateDepositsSweepFee
    announces; one of P2SH deposits is not, and is larger than the estimate *)
+Definition p2sh_sweep_ins : list rin :=
+  [mk_rin (KPkh true) r33 s_low32; mk_rin (KSh false redeem126) r33 s_low32;
+   mk_rin (KSh false redeem126) r33 s_low32].
 Example sweep_p2sh_deposits_exceed_estimate :
-  let ins := [mk_rin (KPkh true) r33 s_low32; mk_rin (KSh false redeem126) r33 s_low32;
-              mk_rin (KSh false redeem126) r33 s_low32] in
-  exists T e, build ins [out_of 22] = Some T /\ estimate (sweep_ops 2) = VOk e /\ e + 300 < vsize T.
-Proof. cbv zeta. eexists. eexists. repeat split; vm_compute; reflexivity. Qed.
+  exists T e, build p2sh_sweep_ins [out_of 22] = Some T /\ estimate (sweep_ops 2) = VOk e /\
+              (e + 300 <? vsize T) = true.
+Proof. apply (witness_of_bool der_serialize). vm_compute. reflexivity. Qed.
 
 (* ---- the executable spec ---- *)
 Lemma spec_ok_sound c e r :
